@@ -141,7 +141,7 @@ def clause_algebra(R):
     from . import symalg
     from .symalg import poly, coeff_tags, cev, NotSymbolic
     quick = R.tier != "thorough"
-    lengths = [1 << k for k in range(1, 11) if (1 << k) <= (128 if quick else 1024)]
+    lengths = [1 << k for k in range(1, 11) if (1 << k) <= (256 if quick else 1024)]
     prod_max = 16 if quick else 64
     split_max = 64 if quick else 256
     S = Session()
@@ -151,6 +151,7 @@ def clause_algebra(R):
     ctx.hooks["may_panic"] = lambda inst: False
     ctx.hooks["inline"] = lambda c: "num::Complex" in c.name
     ctx.hooks["exact_collect_max"] = 1100
+    ctx.hooks["keep_heads_max"] = 1100
     fft, ifft = S.find(f"{IMPL}::fft"), S.find(f"{IMPL}::ifft")
     split, merge = S.find(f"{IMPL}::split_fft"), S.find(f"{IMPL}::merge_fft")
     hmul = S.find(f"polynomial::Polynomial::<{CPLX}>::hadamard_mul")
